@@ -1,7 +1,7 @@
 (* C08 — property theorems only.  Each is closed by [exact] of a lemma proved in C08/Proofs*.v
    and followed by Print Assumptions.  Constants, the footprint macro and the memory orders are
    those re-extracted from the code on this run (gen/Params_C08.v). *)
-From MV Require Import Lib.Leaf C08.Model C08.ModelConc C08.ProofsSeq C08.ProofsDrain C08.ProofsConc C08.ProofsConcInv C08.ProofsGen gen.Params_C08.
+From MV Require Import Lib.Leaf C08.Model C08.ModelConc C08.ProofsSeq C08.ProofsDrain C08.ProofsConc C08.ProofsConcInv C08.ProofsConcWipe C08.ProofsGen gen.Params_C08.
 Local Open Scope Z_scope.
 
 (* tie of the literals used by the model to the headers: cache line size, header layout, and the
@@ -145,6 +145,20 @@ Theorem shm_reader_only_frame : forall P sched s, (forall tc, In tc sched -> fst
     Forall (fun d => exists ln, d = (ln, c_hN s ln, c_body s ln)) extra.
 Proof. intros P sched s H. exact (reader_only_frame P sched s H). Qed.
 Print Assumptions shm_reader_only_frame.
+
+(* Refuted variant (kept as a witness of what the reader's frame clause excludes): if r_move wipes the
+   consumed header AFTER its release store of read_cursor (two plain stores in the segment following the
+   store), then with a full ring and the writer polling for the released lines there is a schedule in
+   which everybody finishes and a committed message is never delivered.  The clause of the model that such
+   code violates is rstep_frame / shm_reader_only_frame: a reader step never writes a data line, which
+   is what keeps the unread messages intact (g_mok) under reader steps in shm_conc_inv_reachable. *)
+Theorem shm_reader_wipe_after_release_refuted :
+  let s := fst (exec (csys * option Z) (cstep_wipe P_code) (wipe_init, None) wipe_sched) in
+  r_pc (c_rd s) = RDone /\ w_pc (c_wr s 1%nat) = WDone /\
+  c_committed s = [(0, 120, 10); (4, 1, 20); (0, 3, 40)] /\ c_delivered s = [(0, 120, 10); (4, 1, 20)] /\
+  c_unread s = [(0, 3, 40)] /\ c_hN s 0 = 0.
+Proof. exact wipe_after_release_refuted. Qed.
+Print Assumptions shm_reader_wipe_after_release_refuted.
 
 (* ------------------------------------------------------------------ second tie (translator) *)
 (* The integer content of six functions of shm_ring_buffer.c is sliced out of the C text of THIS run
